@@ -514,6 +514,12 @@ fn run_history(hseed: u64, thorough: bool, scratch: &std::path::Path, tot: &mut 
                     tot.bump("answers_nonempty");
                 }
                 check_answer(&st, &indexed, &q, &a, &ctx, step_no, tot);
+                if let (Q::Tip, A::Tip(t)) = (&q, &a) {
+                    // a wrong tip makes the sync loop feed the indexer nonsense: stop this history
+                    if *t != indexed.last().map(|b| (b.num, b.id)) {
+                        dead = true;
+                    }
+                }
                 // paging: follow the cursor of a short page
                 if let Some(next) = q.next_page(&a) {
                     if qs.len() < q_per_step + 6 {
@@ -530,6 +536,9 @@ fn run_history(hseed: u64, thorough: bool, scratch: &std::path::Path, tot: &mut 
             steps_json.push(json!({"op": op_json, "queries": qa_json}));
             if verbose {
                 println!("step {step_no}: {op_json} -> {} queries", qs.len());
+            }
+            if dead {
+                break;
             }
         }
     }
